@@ -92,10 +92,20 @@ class Ctx:
 
 
 def load_known():
-    if not os.path.exists(KNOWN):
-        return {"known": [], "fixed": []}
-    with open(KNOWN) as fh:
-        return json.load(fh)
+    out = {"known": [], "fixed": []}
+    if os.path.exists(KNOWN):
+        with open(KNOWN) as fh:
+            out = json.load(fh)
+    # per-property fragments (development convenience; consolidated into known_findings.json)
+    d = os.path.join(ROOT, "known_findings.d")
+    if os.path.isdir(d):
+        for f in sorted(os.listdir(d)):
+            if f.endswith(".json"):
+                with open(os.path.join(d, f)) as fh:
+                    frag = json.load(fh)
+                out["known"] += frag.get("known", [])
+                out["fixed"] += frag.get("fixed", [])
+    return out
 
 
 def match_known(pid, sig, known):
